@@ -202,6 +202,10 @@ const SPECIAL_STRINGS: &[&str] = &[
     "\u{23a}\u{2c65}",
     "\u{10400}\u{10428} \u{df}a",
     "\u{17f}",
+    // multi-codepoint grapheme clusters at both ends (flags, ZWJ sequence, stacked marks)
+    "\u{1F1EB}\u{1F1F7}\u{1F1E9}\u{1F1EA}",
+    "e\u{301}\u{301}x\u{1F468}\u{200D}\u{1F469}\u{200D}\u{1F467}",
+    "\u{1F1EB}a\u{301}",
 ];
 
 pub fn gen_string(rng: &Rng) -> String {
